@@ -394,6 +394,23 @@ def forest_wellformed(d):
     return probs
 
 
+def use_up(x):
+    """what a caller may do with a container the library handed out (a list of structures, an array of values): change it
+    in place.  Accessors that build their result afresh are unaffected; one that hands out its internal state (or a view
+    of it) answers differently afterwards."""
+    try:
+        if isinstance(x, np.ndarray):
+            if x.size and x.flags.writeable:
+                x[...] = x.dtype.type(1) if x.dtype.kind in 'iufb' else x.flat[0]
+        elif isinstance(x, list):
+            del x[:]
+        elif isinstance(x, dict):
+            x.clear()
+    except (ValueError, TypeError):
+        pass
+    return None
+
+
 def observe(d, case):
     """common observation schema from the real objects"""
     fb = case['fb']
@@ -410,6 +427,13 @@ def observe(d, case):
         tisub = sorted(int(x) for x in np.ravel_multi_index(tis, shape)) if len(tis[0]) else []
         pk = s.get_peak(subtree=False)
         pks = s.get_peak(subtree=True)
+        # value arrays are the caller's to keep: the ones read here are changed in place once they have been recorded
+        v_own = s.values(subtree=False)
+        v_own_k = [to_k(v, fb) for v in v_own]
+        use_up(v_own)
+        v_sub = s.values(subtree=True)
+        v_sub_k = [to_k(v, fb) for v in v_sub]
+        use_up(v_sub)
         obs['structs'][int(s.idx)] = {
             'id': int(s.idx), 'par': None if s.parent is None else int(s.parent.idx),
             'kids': [int(c.idx) for c in s.children], 'own': own,
@@ -420,9 +444,9 @@ def observe(d, case):
             'peak': (flat(pk[0], shape), to_k(pk[1], fb)), 'peaksub': (flat(pks[0], shape), to_k(pks[1], fb)),
             'small': flat(s.smallest_index, shape), 'tiown': tiown, 'tisub': tisub,
             'is_leaf': bool(s.is_leaf), 'is_branch': bool(s.is_branch),
-            'values_own': [to_k(v, fb) for v in s.values(subtree=False)],
+            'values_own': v_own_k,
             'indices_own_ordered': [int(x) for x in np.ravel_multi_index(tio, shape)] if len(tio[0]) else [],
-            'values_sub': [to_k(v, fb) for v in s.values(subtree=True)],
+            'values_sub': v_sub_k,
             'indices_sub_ordered': [int(x) for x in np.ravel_multi_index(tis, shape)] if len(tis[0]) else [],
         }
     # pixsub from the own lists (independent of the tree index)
@@ -440,6 +464,7 @@ def observe(d, case):
     obs['iter'] = [int(s.idx) for s in d]
     obs['lmap'] = [int(x) for x in np.asarray(d.index_map).ravel()]
     obs['newick'] = d.to_newick()
+    use_up(d.leaves)       # a list of leaves handed out earlier belongs to the caller
     obs['leaves'] = sorted(int(s.idx) for s in d.leaves)
     obs['len'] = len(d)
     obs['dict_ids'] = sorted(int(k) for k in d._structures_dict.keys())
